@@ -17,9 +17,11 @@ oracle : this file, written from the English statement: weights positive and fin
          (exactly: 1 - eps*(m(m-1)/2 + c*m) with the documented 1e-7 ordering trick), variable and
          constant mass = variable_probability when other rules exist, start weights sum to 1,
          weight of a primitive rule = re-normalised softmax of the tensor entries that `encode`
-         marks for the rules of that non-terminal, exp(log_probability t) = start weight x product
-         of converted rule weights along the derivation found by the harness' own tree-recursive
-         derivation, encode t = indicator of the primitive rules of that derivation; the slice
+         marks for the rules of that non-terminal, exp(log_probability t) = to_prob grammar
+         .probability(t) = product of converted rule weights along the derivation found by the
+         harness' own tree-recursive derivation (and = start weight x that product: with several
+         start symbols this last identity fails by the start weight, open known finding C04-F1,
+         listed here as C19-F1; classifier: the grammar has more than one start symbol), encode t = indicator of the primitive rules of that derivation; the slice
          table is a bijection between (abstraction, primitive) pairs and tensor positions.
 Tolerances (float32 tensors, float64 model): per tag 1e-4 abs/rel (variable/constant tags, float64
 on both sides: 1e-9), sums 1e-5, encode exact; for tensors with max|x| > 80 (3% of the cases use
@@ -121,7 +123,7 @@ def corpus():
     ms = {"treq": "int -> int", "depth": 3, "minvar": 1, "ngram": 2, "consts": False, "mode": "multistart", "nstarts": 2, "startseed": 1}
     z = {"type": "zeros", "seed": 0, "scale": 1, "sign": 1, "hot": 0}
     return [
-        # C19-F1: two start symbols, log_probability omitted the start tag
+        # C19-F1 (= C04-F1): several start symbols, the start weight is not part of log_probability / probability
         {"kind": "u", "abs": "bigram", "v": 0.2, "dsl": "arith", "grammars": [ms], "which": 0, "tvo": False, "tensor": z,
          "nprogs": 2, "progseed": 3, "malformed": None},
         {"kind": "u", "abs": "presence", "v": 0.5, "dsl": "arith", "grammars": [dict(ms, mode="dfta", constraint="(+ ^+ _)")], "which": 0,
@@ -738,7 +740,7 @@ def check(case, M):
         mprogs = A.get("progs", [])
         for j, t in enumerate(progs):
             mp_ = mprogs[j]
-            m_lp, m_lp_old, m_enc, m_nder, m_steps, m_ind, m_w, m_wraw = mp_
+            m_lp, m_prob, m_enc, m_nder, m_steps, m_ind, m_w, m_wraw = mp_
             rp = to_repo_prog(t, T.dp_obj)
             # harness' own derivations (from every start symbol)
             ders = [(s0, d) for s0 in G["starts"] for d in derive_tree(rules_map, s0, t)]
@@ -750,6 +752,7 @@ def check(case, M):
                 warnings.simplefilter("ignore")
                 ilp = outcome(lambda: float(lg.log_probability(rp).item()))
                 ienc = outcome(lambda: [int(z) for z in layer.encode(rp, treq).tolist()])
+                iprob = outcome(lambda: float(pg.probability(rp))) if pg is not None else ("err", "no converted grammar")
             # model vs spec (theorems C19_encode, C19_consistent)
             if isu and int(m_nder[1]) != len(ders):
                 raise RuntimeError(f"model finds {m_nder[1]} derivations where the harness finds {len(ders)}: {prog_str(t)}")
@@ -761,8 +764,15 @@ def check(case, M):
                 msteps = [(int(s[0]), dp_key(s[1])) for s in m_steps]
                 if msteps != [(s, p) for s, p, _ in der]:
                     raise RuntimeError(f"Lean derivation and harness derivation disagree on {prog_str(t)}: {msteps} vs {der}")
-                if not extreme[0] and (m_lp == "err" or m_w == "err" or not close(sexp(b2f(m_lp[1])), b2f(m_w[1]), 1e-6)):
-                    raise RuntimeError(f"model contradicts C19_consistent on {prog_str(t)}: {m_lp} {m_w}")
+                if not extreme[0]:
+                    # theorems C19_consistent_det / C19_consistent_u (+ C19_consistent_u_partial for one start)
+                    mtol = 1e-6 + len(der) * 3e-6
+                    if m_lp == "err" or m_w == "err":
+                        raise RuntimeError(f"model has no log-probability / derivation weight on {prog_str(t)}: {m_lp} {m_w}")
+                    if isu and not close(sexp(b2f(m_lp[1])), b2f(m_prob[1]), mtol):
+                        raise RuntimeError(f"model contradicts C19_consistent_u on {prog_str(t)}: {m_lp} {m_prob}")
+                    if (not isu or len(G["starts"]) == 1) and not close(sexp(b2f(m_lp[1])), b2f(m_w[1]), mtol):
+                        raise RuntimeError(f"model contradicts C19_consistent(_partial) on {prog_str(t)}: {m_lp} {m_w}")
             # correspondence
             if ienc[0] == "err":
                 if m_enc != "err":
@@ -771,17 +781,16 @@ def check(case, M):
                 fail("corr", "encode returns a vector where the model fails", prog_str(t))
             elif ienc[1] != [int(z) for z in m_enc[1]]:
                 fail("corr", "encode differs from the model", f"{prog_str(t)}: impl={ienc[1]} model={m_enc[1]}")
-            lp_fixed = None if m_lp == "err" else b2f(m_lp[1])
-            lp_old = None if m_lp_old in ("err", "na") else b2f(m_lp_old[1])
+            lp_model = None if m_lp == "err" else b2f(m_lp[1])
             if ilp[0] == "err":
-                if lp_fixed is not None:
+                if lp_model is not None:
                     fail("corr", "log_probability raises where the model returns a value", f"{prog_str(t)}: {ilp[1]}")
-            elif lp_fixed is None:
+            elif lp_model is None:
                 fail("corr", "log_probability returns a value where the model fails", prog_str(t))
-            elif not close(ilp[1], lp_fixed, TAG_TOL_ * max(1, len(ders[0][1]) if ders else 1)):
-                pre = isu and lp_old is not None and close(ilp[1], lp_old, TAG_TOL_)
-                fail("corr", "log_probability differs from the model" + (" (equals the model of the code before fix C19-F1: start tag omitted)" if pre else ""),
-                     f"{prog_str(t)}: impl={ilp[1]} model={lp_fixed}")
+            elif not close(ilp[1], lp_model, TAG_TOL_ * max(1, len(ders[0][1]) if ders else 1)):
+                fail("corr", "log_probability differs from the model", f"{prog_str(t)}: impl={ilp[1]} model={lp_model}")
+            if isu and iprob[0] == "ok" and m_prob not in ("err", "na") and not close(iprob[1], b2f(m_prob[1]), TAG_TOL_ * max(1, len(ders[0][1]) if ders else 1)):
+                fail("corr", "probability of the converted grammar differs from the model", f"{prog_str(t)}: impl={iprob[1]} model={b2f(m_prob[1])}")
             # oracle (programs of the grammar only)
             if der is None or pg is None:
                 continue
@@ -800,17 +809,33 @@ def check(case, M):
                 fail("oracle", "log_probability raises on a program of the grammar", f"{prog_str(t)}: {ilp[1]}")
                 continue
             try:
-                wprob = float(pg.start_tags[T.nts[der_start - 1]]) if isu else 1.0
+                wstart = float(pg.start_tags[T.nts[der_start - 1]]) if isu else 1.0
+                wrule = 1.0
                 for s, p, alt in der:
                     d = pg.tags[T.nts[s - 1]][T.dp_obj[p]]
-                    wprob *= float(d[tuple(T.nts[a - 1] for a in alt)]) if isu else float(d)
+                    wrule *= float(d[tuple(T.nts[a - 1] for a in alt)]) if isu else float(d)
             except Exception as e:  # noqa
                 fail("oracle", "the converted grammar has no weight for a rule of the derivation", f"{prog_str(t)}: {type(e).__name__}")
                 continue
             tol = (1e-4 + len(der) * 3e-6) * fscale
-            if not close(sexp(ilp[1]), wprob, tol) and not (wprob < 1e-300 and sexp(ilp[1]) < 1e-300):
-                fail("oracle", "exp(log_probability) differs from the probability the converted grammar gives to the derivation",
-                     f"{prog_str(t)}: exp(log_probability)={sexp(ilp[1])} start weight x product of rule weights={wprob} (starts={len(G['starts'])})")
+            elp = sexp(ilp[1])
+
+            def same(a, b):
+                return close(a, b, tol) or (a < 1e-300 and b < 1e-300)
+            # the statement as the coordinator reads it: what the converted grammar's own probability() returns
+            if iprob[0] == "err" or not same(elp, iprob[1]):
+                fail("oracle", "exp(log_probability) differs from to_prob grammar .probability(program)",
+                     f"{prog_str(t)}: exp(log_probability)={elp} probability={iprob[1]} (starts={len(G['starts'])})")
+            if not same(elp, wrule):
+                fail("oracle", "exp(log_probability) differs from the product of the converted rule weights along the derivation",
+                     f"{prog_str(t)}: exp(log_probability)={elp} product of rule weights={wrule}")
+            # the distribution including the start symbols: fails by the start weight when there are
+            # several start symbols — open known finding C04-F1, listed for this property as C19-F1
+            if not same(elp, wstart * wrule):
+                multi = isu and len(G["starts"]) > 1        # the decidable hypothesis of C19_consistent_u_partial
+                fail("oracle", "exp(log_probability) differs from the probability of the derivation including the start weight",
+                     f"{prog_str(t)}: exp(log_probability)={elp} start weight x product of rule weights={wstart * wrule} (starts={len(G['starts'])})",
+                     finding="C19-F1" if multi else None)
 
     # ---- tags / key / sample
     nst = len(G["starts"])
